@@ -59,6 +59,7 @@ type Broker struct {
 	publishes []Publish
 	seq       int
 	hold      bool
+	subDelay  time.Duration
 	queue     []forward
 	delay     func(p Publish) time.Duration
 	delivered int
@@ -172,6 +173,13 @@ func (b *Broker) Delivered() int {
 	b.mu.Lock()
 	defer b.mu.Unlock()
 	return b.delivered
+}
+
+// SetSubscribeDelay makes the broker wait before a SUBSCRIBE takes effect and is acknowledged.
+func (b *Broker) SetSubscribeDelay(d time.Duration) {
+	b.mu.Lock()
+	b.subDelay = d
+	b.mu.Unlock()
 }
 
 // Subscribers returns the number of connected sessions subscribed to the topic.
@@ -317,6 +325,13 @@ func (b *Broker) serve(s *session) {
 				ack = append(ack, 0x00) // granted QoS 0
 			}
 			ack[1] = byte(len(ack) - 2)
+			b.mu.Lock()
+			sd := b.subDelay
+			b.mu.Unlock()
+			if sd > 0 {
+				// a broker that takes its time: the subscription is in force (and acknowledged) only afterwards
+				time.Sleep(sd)
+			}
 			b.mu.Lock()
 			for _, t := range topics {
 				s.subs[t] = true
